@@ -54,6 +54,9 @@ def vec_boundary(shapes, L, with_masks=True):
             for m in range(3):
                 add([setup(m, "r1", 10), "append r0 r1", "len r1", "push r1 26"], "append")
                 add([f"extend r0 {tl(tags(m, 12))}"], "extend")
+                # the iterator panics when asked for item k: the items before it stay pushed
+                for k in range(m + 1):
+                    add([f"extend_boom r0 {tl(tags(m, 12))} {k}", "len r0", "push r0 27"], "extend_boom")
                 if cl:
                     add([setup(m, "r1", 10), "extend_from_slice r0 r1"], "extend_from_slice")
                     add([setup(m, "r1", 10), "extend_refs r0 r1"], "extend_refs")
@@ -145,7 +148,11 @@ def vec_random(shapes, count, nops, seed, p_invalid=0.15, max_len=12):
                 lines.append(f"{op} r{r} keep={mask}{extra}"); lens[r] = mask.count("1")
             elif op == "extend":
                 m = rng.randrange(4)
-                lines.append(f"extend r{r} {tl([fresh() for _ in range(m)])}"); lens[r] += m
+                if rng.random() < 0.25:
+                    k = rng.randrange(m + 1)
+                    lines.append(f"extend_boom r{r} {tl([fresh() for _ in range(m)])} {k}"); lens[r] += min(k, m)
+                else:
+                    lines.append(f"extend r{r} {tl([fresh() for _ in range(m)])}"); lens[r] += m
             elif op == "collect":
                 m = rng.randrange(5)
                 lines.append(f"collect r{r} {tl([fresh() for _ in range(m)])}"); lens[r] = m
